@@ -90,6 +90,15 @@ CHECKS = {
               "allocator contract by loop contract. Sequences of any length follow by induction (stated); long random sequences as bounded stand-in."),
         technique="contract-based deductive verification: balance/no-clobber contracts per completed SDK operation over a symbolic active-register set, allocator loop contract, z3 (arrays + LIA)",
         design_ref="5.C14"),
+    "C05": dict(
+        category="proof",
+        text=("Per SDK construct (if_eq/ne/lt/ge/ez/nz in context and callback form, loop, loop_body, foreach, enumerate, loop_until, add on futures with/without "
+              "modulus, arrays with initial values, measurement into arrays/futures/registers, two nestings, a program split over three flushes) a host program "
+              "with SYMBOLIC data and measurement outcomes is executed through the real Builder -> assembler -> base Executor; gate applications, final arrays/"
+              "registers and the values the host reads after every flush are proved equal to the construct's direct meaning. Arbitrary nesting/flush placement by "
+              "stated induction over program structure."),
+        technique="contract-based deductive verification: end-to-end symbolic execution of the real SDK/assembler/executor per construct, postconditions from direct semantics, z3 LIA",
+        design_ref="5.C05"),
     "C19": dict(
         category="proof",
         text=("Loop-invariant proof of get_angle_spec_from_float over the reals for every angle and every tolerance in [1e-9, 1]: the real loop "
